@@ -590,8 +590,8 @@ def run(tier, seed, replay=None):
         # pipe, one message in each direction): the allocation points of pipe_init / ctx_init and the unwinding of each
         for proto, peer, ctx in (("pair0", "0010", False), ("pair1", "0011", False), ("bus", "0070", False), ("pub", "0021", False),
                                  ("sub", "0020", True), ("push", "0051", False), ("pull", "0050", False), ("req", "0031", True),
-                                 ("rep", "0030", True), ("surveyor", "0063", True), ("respondent", "0062", True)):
-            for raw in ("", " raw"):
+                                 ("rep", "0030", True), ("surveyor", "0063", True), ("respondent", "0062", True), ("pair1poly", "0011", False)):
+            for raw in (("",) if proto == "pair1poly" else ("", " raw")):
                 ops = [f"open {proto}{raw}", f"pipe_add {peer}"] + (["ctx_open 0"] if ctx and not raw else []) + [f"pipe_add {peer}", "poll", "close"]
                 programs.append(ops)
         # the socket must be open before failures are injected: `open` stays first, failalloc follows it
